@@ -235,6 +235,7 @@ type Frame struct {
 	depth      int
 	ranges     map[ssa.Value]*rangeState
 	skipModifies bool
+	lockSnap   *State // state right after the last Lock in the top frame
 }
 
 type rangeState struct {
